@@ -193,6 +193,30 @@ def classify(c, obs, why):
     return None
 
 
+def concurrent_sets(res, a, pid):
+    """implementation side: two goroutines set the same key at the same time, round after round (two connections adding a
+    pairing for the same controller do that): both sets succeed, the key holds one of the two values in full"""
+    import os
+    rng = core.rng_for(pid + "/cs", res.seed)
+    cases = []
+    for i in range(3 if a.tier == "quick" else 12):
+        long, short = rbytes(rng, rng.choice([700, 4096, 300])), rbytes(rng, rng.choice([0, 10, 64]))
+        key = rng.choice([b"k", b"616263.entity", b"version"])
+        cases.append({"id": "cs%d" % i, "line": "hist CS:%s:%s:%s:%d" % (key.hex(), long.hex(), short.hex(), 400 if a.tier == "quick" else 2000)})
+    obs = core.shard_run(os.path.join(core.BUILD, "hcdrv"), "storage", ["%s %s" % (c["id"], c["line"]) for c in cases])
+    bad = 0
+    for c in cases:
+        o = obs.get(c["id"], "NO-OUTPUT")
+        res.cases += 1
+        res.count("kind:concurrent-sets")
+        if o != "cs=ok":
+            bad += 1
+            res.violations.append(("concurrent-sets", {"property": pid, "family": "storage", "seed": res.seed, "case": c["line"], "implementation_observed": o[:200],
+                                                       "required": "two overlapping sets of one key: both must succeed and the key must hold one of the two values in full (observed %s)" % o[:60],
+                                                       "failing_input_found": True, "replay": "python3 tools/check.py %s --replay <this file>" % pid}))
+    res.obligations.append(("implementation-side runs: overlapping sets of one key", bad == 0, "%d runs, %d failing" % (len(cases), bad)))
+
+
 def run(res, a):
     res.rule = RULE
     res.assumptions = ASSUMPTIONS
@@ -201,6 +225,13 @@ def run(res, a):
     if a.replay:
         rep = json.load(open(a.replay))
         fam = rep.get("family", "storage")
+        if " CS:" in rep["case"]:
+            import os
+            o = core.shard_run(os.path.join(core.BUILD, "hcdrv"), "storage", ["replay " + rep["case"]]).get("replay", "NO-OUTPUT")
+            res.cases += 1
+            if o != "cs=ok":
+                res.violations.append(("concurrent-sets", dict(rep, implementation_observed=o[:200])))
+            return
         core.run_correspondence(res, fam, [{"id": "replay", "line": rep["case"], "kind": fam}], __import__(__name__, fromlist=["x"]))
         return
     me = __import__(__name__, fromlist=["x"])
@@ -211,3 +242,4 @@ def run(res, a):
     core.run_correspondence(res, "storage", st, me)
     dbc = core.load_corpus("db") + gen_db(rng, 500 if q else 20000)
     core.run_correspondence(res, "db", dbc, me)
+    concurrent_sets(res, a, ID)
